@@ -5,6 +5,6 @@ for m in "$@"; do
   d=seeded/$m; p=$(python3 -c "import json;print(json.load(open('$d/meta.json'))['breaks_property'])")
   git -C /repo checkout -q -- . ; git -C /repo apply /verif/$d/patch.diff || { echo "$m: patch does not apply"; continue; }
   t0=$(date +%s); /verif/bin/vcheck -property $p -tier quick -timeout 20000 > /verif/out/mut_$m.log 2>&1; rc=$?; t1=$(date +%s)
-  git -C /repo checkout -q -- .
+  git -C /repo checkout -q -- . ; git -C /repo clean -fdq
   echo "$m property=$p rc=$rc $((t1-t0))s violations=$(grep -c '^VIOLATION' /verif/out/mut_$m.log)"
 done
